@@ -250,6 +250,10 @@ fn call_size() -> BoxedStrategy<CallSize> {
     .boxed()
 }
 
+pub fn fuzz_strategy() -> BoxedStrategy<Case> {
+    case_for_w(prop_oneof![3 => 1u32..70, 2 => gen::pick(&[100u32, 127, 128, 129, 255, 256, 4096, 65_535]), 1 => gen::pick(&[0x7FFF_FFFFu32, 0x8000_0000, 0xFFFF_FFFF])].boxed())
+}
+
 fn case_for_w(wstrat: BoxedStrategy<u32>) -> BoxedStrategy<Case> {
     (any::<bool>(), wstrat)
         .prop_flat_map(|(server, w)| {
